@@ -277,6 +277,7 @@ class Body:
         self.blocks = {}
         self.line = 0
         self.span = ""
+        self.simple = None
 
 
 TARGETS_RE = re.compile(r" -> (\[.*\]|unwind .*|bb\d+|!)\s*;?$")
@@ -400,6 +401,14 @@ def parse_mir(path, want=None):
     while i < n:
         line = lines[i]
         if cur is None:
+            sm = re.match(r"^const (.*?): (\S+) = const (.*);$", line)
+            if sm and "<impl at" not in sm.group(1):
+                b = Body(sm.group(1), line)
+                b.ret = sm.group(2)
+                b.simple = sm.group(3)
+                consts[sm.group(1)] = b
+                i += 1
+                continue
             if HEADER_RE.match(line) and line.rstrip().endswith("{"):
                 header = line.rstrip()[:-1].strip()
                 # multi-line headers do not occur in this dump; keep simple
